@@ -94,7 +94,7 @@ def build(X):
                        "fn excludes_one(e, name, target_id, target_name); the captured pattern variables of the enclosing arm become & parameters"})
     f.inline_local_callees(X, TRANSFORMS)
     f.desugar_option_closures()
-    f.rewrite_re("R5", r"\bname == e_name\b", "opt_ident_eq(name, e_name)", count=None, why="derived PartialEq on Option<Ident>")
+    f.rewrite_re("R5", r"\b(?:name == e_name|e_name == name)\b", "opt_ident_eq(name, e_name)", count=None, why="derived PartialEq on Option<Ident> (symmetric)")
     f.text = ("pub fn excludes_one(e: &LineageColumn, name: &Option<Ident>, target_id: &usize, target_name: &Option<String>) -> (r: bool)\n"
               "    requires\n"
               "        (e is All && e->All_input_id == *target_id) ==> target_name is Some,\n"
